@@ -52,7 +52,7 @@ void h_order_types(void)
 def build(tier, seed):
     if '-I' + os.path.join(VERIF, 'drivers') not in ipv.CLANG_ARGS:
         ipv.CLANG_ARGS.append('-I' + os.path.join(VERIF, 'drivers'))
-    fns = ['vars', 'mixed', 'parameters', 'enumerators', 'position']
+    fns = ['vars', 'mixed', 'parameters', 'enumerators', 'position', 'types3']
     names = {'s_' + k: 'drv::s_' + k for k in fns}
     NC = 'ipr::impl::node_compare::operator()'
     names.update(cmp_ovl_name=(NC, 'Overload'), cmp_entry_type=(NC, '=_ZNK3ipr4impl12node_compareclERKNS0_14overload_entryERKNS_4TypeE'), cmp_entry_entry=(NC, '=_ZNK3ipr4impl12node_compareclERKNS0_14overload_entryES4_'),
@@ -66,18 +66,20 @@ def build(tier, seed):
             t = F.PRELUDE_C + F.ext_models(unit) + ORDER + 'void h_%s(void)\n{\n' % k.replace('.', '_')
             args = []
             for i, (ct, pn) in enumerate(cps):
-                if ct == 'int' and k.startswith('vars') and pn in PATTERN[k]:
+                if ct == 'int' and k in PATTERN and pn in PATTERN[k]:
                     t += '  int %s = %d;\n' % (pn, PATTERN[k][pn])
                 elif ct == 'int':
                     hi = 3 if pn == 'v_k' else (5 if pn == 'v_which' else 1)
                     lo = 1 if pn == 'v_k' else 0
                     t += '  int %s; { int t_%d; %s = t_%d; } __CPROVER_assume(%d <= %s && %s <= %d);\n' % (pn, i, pn, i, lo, pn, pn, hi)
-                elif k.startswith('vars') and re.match(r'v_[nt][012]$', pn):
+                elif k in PATTERN and re.match(r'v_[nt][012]$', pn):
                     # names / types are elements of one array, so that their ADDRESS ORDER (what node_compare looks at, hence the shape of the two
                     # red-black tables) is fixed per obligation: ascending or descending.  Tree shapes for arbitrary orders are C08's business.
                     kind_, idx = pn[2], int(pn[3]); rev = PATTERN[k].get('rev', 0)
                     if idx == 0:
                         t += '  static %s pool_%s[3];\n' % (ct[:-1].strip(), kind_)
+                    if pn == 'v_t0' and k.startswith('types3'):
+                        pass
                     t += '  %s %s = &pool_%s[%d];\n' % (ct, pn, kind_, (2 - idx) if rev else idx)
                 elif 'Lexicon' in ct:
                     t += '  %s %s = NEWZ(%s);\n' % (ct, pn, ct[:-1].strip())
@@ -106,7 +108,12 @@ def build(tier, seed):
                         key = 'vars.n0%d%d.t0%d%d.%s' % (a, b, c, d, 'desc' if rev else 'asc')
                         PATTERN[key] = dict(v_ni0=0, v_ni1=a, v_ni2=b, v_ti0=0, v_ti1=c, v_ti2=d, v_k=3, rev=rev); hk.append(key)
                         what[key] = 'the history of 3 variable declarations with names (n0, n%d, n%d) and types (t0, t%d, t%d), node addresses %s: clauses asserted after every step' % (a, b, c, d, 'descending' if rev else 'ascending')
-    for k in hk + [x for x in fns if x != 'vars']:
+    import itertools
+    for perm in itertools.permutations(range(3)):
+        key = 'types3.%d%d%d' % perm
+        PATTERN[key] = dict(v_a=perm[0], v_b=perm[1], v_c=perm[2], rev=0); hk.append(key)
+        what[key] = 'one name declared with three distinct types entered in the order %s of their address ranks: all clauses and the complete selection-by-type matrix after every step' % (perm,)
+    for k in hk + [x for x in fns if x not in ('vars', 'types3')]:
         o = Ob('C07.history.' + k, u, None, 'h_' + k.replace('.', '_'), what[k], kind='K5', replay='C07', timeout=120, flags=['--unwind', '12'], objbits=12, bounded='histories of at most 3 declarations')
         o.gen = mkgen(k); obs.append(o)
     for o in obs:
